@@ -13,7 +13,8 @@ PID = "C13"
 LEVEL = "exploration"
 RULE = (
     "finite space enumerated exhaustively: every Aggregate subclass found in any module of ofxtools.models x obligations: "
-    "(found-by-tag) the package namespace resolves the tag to the class; (child) for every declared element, sub-aggregate "
+    "(found-by-tag) the package namespace resolves the tag to the class; (schema-walk) after the public class-level mappings of "
+    "every class have been read, bases first, each class still reports exactly the children its body declares; (child) for every declared element, sub-aggregate "
     "and repeated member: a minimal valid parent containing it is constructed, written under the child's OFX tag (FROM/YIELD "
     "renames honoured), and read back through the wire (XML and SGML) into the same attribute / list without an unknown-tag "
     "warning; (unsupported) a document carrying an Unsupported child's tag converts without error or unknown-tag warning; "
@@ -27,7 +28,7 @@ ASSUMPTIONS = ["values for the probes come from the harness's minimal-instance b
 
 def obligations(cls):
     name = cls.__name__
-    out = [{"ob": "found-by-tag"}]
+    out = [{"ob": "found-by-tag"}, {"ob": "schema-walk"}]
     for attr, kind, t in M.decl(cls):
         if kind == "unsupported":
             out.append({"ob": "unsupported", "attr": attr})
@@ -115,6 +116,8 @@ def check_case(case):
     ob = case["ob"]
     name = cls.__name__
     out = []
+    if ob == "schema-walk":
+        return [("declared-children-differ-after-schema-walk", f"{c}: class body declares {m}, the class reports {t}") for c, m, t in schema_walk() if c == name]
     if ob == "found-by-tag":
         if getattr(models, name, None) is not cls:
             out.append(("class-not-found-by-tag", f"getattr(ofxtools.models, {name!r}) is {getattr(models, name, None)!r}"))
@@ -259,10 +262,32 @@ def _custom_patch(desc, attr):
         kw.setdefault("payerstate", ["str", "NY"])
 
 
+def schema_walk():
+    """What any schema-introspecting caller does first: read the public class-level mappings of every class,
+    bases before subclasses.  Declarations are per class: reading them on a base must not change a subclass.
+    -> list of (class, harness declaration keys, library spec keys) that disagree."""
+    bad = []
+    classes = M.all_classes_including_bases()
+    classes.sort(key=lambda c: len(c.__mro__))
+    for c in classes:
+        for prop in ("spec", "spec_no_listaggregates", "elements", "subaggregates", "unsupported", "listaggregates", "listelements"):
+            getattr(c, prop)
+    for c in classes:
+        mine = [k for k, _, _ in M.decl(c)]
+        theirs = list(c.spec.keys())
+        if mine != theirs:
+            bad.append((c.__name__, mine, theirs))
+    return bad
+
+
 def _worker(names):
     H.setup_path()
     s = H.Stats()
     classes = {c.__name__: c for c in M.all_classes_including_bases()}
+    for cname, mine, theirs in schema_walk():
+        if cname in names:
+            case = {"cls": cname, "ob": "schema-walk"}
+            s.fail("declared-children-differ-after-schema-walk", case, f"{cname}: class body declares {mine}, the class reports {theirs}")
     for name in names:
         cls = classes[name]
         obs = obligations(cls) if name.isupper() else [o for o in obligations(cls) if o["ob"] == "group"]
